@@ -159,7 +159,8 @@ def _words_of(b, out):
     b = _unwrap(b)
     if isinstance(b, boxes.TextBox):
         if not b.element_tag.endswith('::marker'):
-            out.extend(b.text.split())
+            # U+200B alone: the box build.element_to_box adds to an otherwise empty list item
+            out.extend(w for w in b.text.split() if w != '\u200b')
         return
     if getattr(b, 'element_tag', '').endswith('::marker'):
         return
